@@ -26,7 +26,7 @@ DIMS = {
     "outline": ["ell", "tri", "blob", "quad", "oval", "ring"],
     "stack": ["base", "one", "three", "three_rev", "four"],
     "place": ["t", "id", "r90", "r180", "r30", "r45", "r1", "mx", "my", "md", "s2", "s05", "nu", "nu2", "sk", "out", "tiny", "near", "off05", "far"],
-    "donor_paint": ["red", "rgba", "named", "omitted", "opacity", "current", "current_op", "var", "var_op"],
+    "donor_paint": ["red", "rgba", "rgba_op", "named", "omitted", "opacity", "current", "current_op", "var", "var_op"],
     "copy_paint": ["blue", "same", "black", "alpha", "current", "var", "lin_bbox", "lin_user", "rad_bbox", "rad_focal_fr"],
     "twin": ["none", "same_glyph", "cross_glyph"],
     "shared_grad": [False, True],
@@ -170,11 +170,11 @@ def mk(a):
     od = OUT[a["outline"]]
     dp = a["donor_paint"]
     donor_paint = {
-        "red": Solid("red"), "rgba": Solid("#FF000080"), "named": Solid("wheat"), "omitted": Solid("black"),
+        "red": Solid("red"), "rgba": Solid("#FF000080"), "rgba_op": Solid("#FF000080"), "named": Solid("wheat"), "omitted": Solid("black"),
         "opacity": Solid("red"), "current": Solid("black", current=True), "current_op": Solid("black", current=True),
         "var": Solid("red", pal=1), "var_op": Solid("red", pal=1),
     }[dp]
-    donor_op = 0.5 if dp in ("opacity", "current_op", "var_op") else 1.0
+    donor_op = 0.5 if dp in ("opacity", "current_op", "var_op", "rgba_op") else 1.0
     cpn = a["copy_paint"]
     copy_paint = {
         "blue": Solid("blue"), "same": donor_paint, "black": Solid("black"), "alpha": Solid("blue"), "current": Solid("black", current=True),
